@@ -328,6 +328,21 @@ pub fn load_known_findings(id: &str) -> Vec<KnownFinding> {
 enum WorkerReply {
     Ok(Pass),
     Fail(Fail),
+    /// the verdict of a case that leaves the worker unusable (a thread stuck in the code under
+    /// test): the worker exits right after writing it
+    FailAndExit(Fail),
+}
+
+/// Worker side, any thread: report the verdict of the case in flight and end the process (the
+/// main thread is stuck in the code under test and holds the stdout lock, so the line is
+/// written to the descriptor directly).
+pub fn worker_fail_and_exit(f: Fail) -> ! {
+    let mut line = serde_json::to_string(&WorkerReply::FailAndExit(f)).unwrap();
+    line.push('\n');
+    unsafe {
+        libc::write(1, line.as_ptr() as *const libc::c_void, line.len());
+        libc::_exit(0);
+    }
 }
 
 /// Worker side: read one JSON case per line, answer one JSON line.
@@ -372,6 +387,8 @@ struct WorkerHandle {
     child: Child,
     stdin: ChildStdin,
     stdout: BufReader<ChildStdout>,
+    /// the worker announced that it exits after its last reply
+    exited: bool,
 }
 
 impl WorkerHandle {
@@ -390,6 +407,7 @@ impl WorkerHandle {
             child,
             stdin,
             stdout,
+            exited: false,
         })
     }
 
@@ -422,6 +440,10 @@ impl WorkerHandle {
             Ok(_) => match serde_json::from_str::<WorkerReply>(&line) {
                 Ok(WorkerReply::Ok(p)) => Ok(Ok(p)),
                 Ok(WorkerReply::Fail(f)) => Ok(Err(f)),
+                Ok(WorkerReply::FailAndExit(f)) => {
+                    self.exited = true;
+                    Ok(Err(f))
+                }
                 Err(_) => Err(false),
             },
         }
@@ -469,7 +491,12 @@ impl<'a, P: Property> Executor<'a, P> {
             }
             let w = self.worker.as_mut().unwrap();
             match w.run(&json, timeout) {
-                Ok(outcome) => return outcome,
+                Ok(outcome) => {
+                    if w.exited {
+                        self.worker = None;
+                    }
+                    return outcome;
+                }
                 Err(false) => {
                     // worker died while executing this case
                     let status = w
